@@ -55,7 +55,7 @@ import WcModel.Properties.C05split
       Hypotheses that exclude recorded C04 defects: `hD17` (D17); components not ending in a newline
       (D3p under DOTGLOB, D3 with a globstar); no IGNORECASE (G2); segments in `Pat.segScope` (D1p,
       D5, G5/G6: not nullable); `hD8` for `A/**/` (D8); one globstar (G8).  Not covered: a leading
-      globstar at the model level.  New finding: `posix_split_defect`.
+      globstar at the model level.  Finding D34 (repaired): `D34_bridge_fixed_witness`.
 -/
 namespace WcModel.C04bridge
 open Bridge PP PPP
@@ -342,7 +342,7 @@ theorem C04_main_partial (dot gs : Bool) (fs : FS) (hwf : fs.WFTree) (hroot : fs
 
 /-- **C04_main_globfree** — `C04_main_partial` with the splitter and the compiler discharged:
     for every globstar-free printed relative pattern in scope (`patOK`) without POSIX class in its
-    brackets (`noPosixPath`: FORCED, `posix_split_defect`), under EXTGLOB | SCANDOTDIR (+DOTGLOB)
+    brackets (`noPosixPath`: was forced by D34, now a limit of the proof only, `D34_bridge_fixed_witness`), under EXTGLOB | SCANDOTDIR (+DOTGLOB)
     (+GLOBSTAR): `_GlobSplit` succeeds (`parts`), `globmatch`'s compilation succeeds (`o`), and on
     every well-formed tree, for every path `q` of components in scope,
         `glob` returns `q` (up to a trailing separator)  ⇔  `globmatch(q, flags | REALPATH)`.
@@ -866,25 +866,28 @@ theorem C04_main_end_glob (dot : Bool) (pp : PathPat) (hpp : patOK pp = true) (h
   · rintro ⟨h1, h2, _, h4⟩; exact ⟨h2, h1, h4⟩
   · rintro ⟨h2, h1, h4⟩; exact ⟨h1, h2, hD8, h4⟩
 
-/-! ## a finding: `_GlobSplit._sequence` does not know POSIX classes -/
+/-! ## a finding, repaired: `_GlobSplit._sequence` did not know POSIX classes (D34) -/
 
-/-- **NEW FINDING (the hypothesis `noPosixPath` is forced).**  `_GlobSplit._sequence` (glob.py 202-220)
-    ends a bracket at the first `]`; it does not know `[:digit:]`.  So in `[[:digit:]@(]x/y)` the
-    scanner believes the bracket is over after `[:digit:]`, reads `@(` as the start of an extended
-    group, and `parse_extend` swallows the separator up to the `)`: the pattern is NOT split at `/`.
-    `WcParse` reads the same text as the bracket `[[:digit:]@(]` followed by `x`, `/`, `y`, `)`.
-    Real code (checked): `glob.glob('[[:digit:]@(]x/y)', flags=EXTGLOB)` returns `[]` although the
-    file `1x/y)` exists, while `globmatch('1x/y)', '[[:digit:]@(]x/y)', flags=EXTGLOB|REALPATH)` is
-    `True` — a C04 (and C05) violation.  The model reproduces it: one part, containing the `/`;
-    the matcher accepts; the walker returns nothing. -/
+/-- **D34 (found here: the hypothesis `noPosixPath` was forced by it; repaired by the `fix:` commit
+    421a2e4).**  `_GlobSplit._sequence` (glob.py 202-226) used to end a bracket at the first `]`; it
+    did not know `[:digit:]`.  So in `[[:digit:]@(]x/y)` the scanner believed the bracket was over
+    after `[:digit:]`, read `@(` as the start of an extended group, and `parse_extend` swallowed the
+    separator up to the `)`: the pattern was NOT split at `/`, `glob.glob('[[:digit:]@(]x/y)',
+    flags=EXTGLOB)` returned `[]` although the file `1x/y)` exists and
+    `globmatch('1x/y)', '[[:digit:]@(]x/y)', flags=EXTGLOB|REALPATH)` is `True` — a C04 (and C05)
+    violation, reproduced by the model at the time (`posix_split_defect`).  Since the repair the
+    scanner reads a bracket as `WcParse._sequence` does (`SeqScan.seq_scanners_agree`): two parts,
+    the walker returns the file, the matcher accepts it.  (`noPosixPath` is still a hypothesis of
+    the bridge theorems below — their proofs follow a printed bracket member by member and have
+    not been extended to class members yet — but it is no longer forced by a defect.) -/
 def tPosix : FS := ⟨.dir [("1x".toList, .dir [("y)".toList, .file)])], []⟩
 
-theorem posix_split_defect :
+theorem D34_bridge_fixed_witness :
     (C05.splitSummary { extmatch := true } "[[:digit:]@(]x/y)").map (List.map (·.text)) =
-      some ["[[:digit:]@(]x/y)".toList] ∧
+      some ["[[:digit:]@(]x".toList, "y)".toList] ∧
     (C05.splitSummary { extmatch := true } "[[:digit:]]x/y)").map (List.map (·.text)) =
       some ["[[:digit:]]x".toList, "y)".toList] ∧
-    C04.gg Gen.FEXTMATCH "[[:digit:]@(]x/y)" tPosix = some [] ∧
+    C04.gg Gen.FEXTMATCH "[[:digit:]@(]x/y)" tPosix = some ["1x/y)"] ∧
     C04.mm (Gen.FEXTMATCH ||| Gen.FREALPATH) "[[:digit:]@(]x/y)" tPosix "1x/y)" = some true := by
   decide +kernel
 
